@@ -190,11 +190,34 @@ def check_roundtrip(ctx, obj, sigs, ks, ids, meta, comp, desc, path):
 				break
 			if sub.kmerspec != ks:
 				ctx.violation('signature-slice', f'h[{s}].kmerspec = {sub.kmerspec}', desc)
-		idx = [n - 1, 0] + ([n // 2, -1] if n > 1 else [])
-		sub = h[idx]
-		ctx.evals += 1
-		if not all(np.array_equal(sub[j], sigs[i]) and sub[j].dtype == dt for j, i in enumerate(idx)):
-			ctx.violation('signature-list-index', f'h[{idx}] differs', desc)
+		import random as _r
+		rr = _r.Random(n * 7919 + len(desc.get('prefix', '')))
+		idxs = [[n - 1, 0] + ([n // 2, -1] if n > 1 else []), list(range(n)), list(range(n - 1, -1, -1))]
+		for _ in range(6):
+			c = rr.random()
+			if c < 0.35:
+				l = list(range(n)); rr.shuffle(l); l = l[:rr.randint(1, n)]          # permutation / unsorted subset
+			elif c < 0.7:
+				a = rr.randrange(n); b = rr.randrange(a, n)
+				l = list(range(a, b + 1))
+				if len(l) > 2:
+					mid = l[1:-1]; rr.shuffle(mid); l = [l[0]] + mid + [l[-1]]      # same end points as a contiguous run, permuted interior
+				if rr.random() < 0.5 and len(l) > 1:
+					l[rr.randrange(1, len(l))] = l[0]                                # duplicates
+			else:
+				l = [rr.randrange(-n, n) for _ in range(rr.randint(1, n + 2))]      # repeats and negative indices
+			idxs.append(l)
+		for idx in idxs:
+			for arg in (idx, np.array(idx, dtype=rr.choice(['i8', 'i4', 'u8']) if min(idx) >= 0 else 'i8')):
+				sub = h[arg]
+				ctx.evals += 1
+				if len(sub) != len(idx) or not all(np.array_equal(sub[j], sigs[i]) and sub[j].dtype == dt for j, i in enumerate(idx)):
+					ctx.violation('signature-list-index', f'h[{idx}] differs from the written signatures at those positions', desc)
+					break
+			else:
+				continue
+			break
+		ctx.count('index_lists_checked', len(idxs))
 		if not (h == obj) and hasattr(obj, 'kmerspec'):
 			ctx.violation('eq-after-roundtrip', 'loaded collection != written collection', desc)
 	except Exception as e:
